@@ -73,7 +73,7 @@ def run(chk, tier):
     GEN = jitter_roles(crate)["gen_entropy"]
     iD = find_field(g.adt, "data", "u64")
     try:
-        iH = field_index(g.adt, "data_half_used")
+        iH = find_field(g.adt, "data_half_used", "bool")  # a renamed flag is still the only bool of the struct
     except Anchor:
         iH = None
     if iH is not None:
